@@ -28,9 +28,13 @@ pub fn exec_case(data: &[u8]) -> Result<&'static str, String> {
         5 => profiles::c18(),
         _ => profiles::mixed(),
     };
+    let t0 = std::time::Instant::now();
     let (prog, _labels) = gen::program(&data[1..], prof);
     let cfg = DiffCfg { quarantine: true, fuel: 400_000, ..DiffCfg::default() };
     let d = run_diff(&prog, &[], &cfg, &RefCfg::default());
+    if std::env::var("VERIF_TIMING").is_ok() {
+        eprintln!("exec_case: generate + reference + first run {:?}; source {} bytes; verdict discard={}", t0.elapsed(), d.source.len(), matches!(d.verdict, DiffVerdict::Discard(_)));
+    }
     let suffix = trigger_suffix(&d.events);
     match &d.verdict {
         DiffVerdict::Discard(_) => return Ok("discard"),
